@@ -128,3 +128,10 @@ impl<T: BufMut> BufMutExt for T {
         VarInt::from_u64(x).unwrap().encode(self);
     }
 }
+
+#[cfg(feature = "__verif-hooks")]
+#[allow(missing_docs, unreachable_pub, dead_code, unused_imports, unused_qualifications)]
+pub mod verif {
+    use super::*;
+    include!(concat!(env!("QUINN_VERIF_HOOKS"), "/proto/coding.rs"));
+}
